@@ -339,6 +339,10 @@ func TestC09_RoundTrip(t *testing.T) {
 			}
 		default:
 			m = GenAny(t, p)
+			if len(m.Comps) > 0 && rapid.IntRange(0, 5).Draw(t, "nilentry") == 0 {
+				// a null entry in the component list (decodes, is not valid)
+				m.Comps[rapid.IntRange(0, len(m.Comps)-1).Draw(t, "nilidx")] = &MComp{NilEntry: true}
+			}
 			valid = m.Valid()
 			tok := permutedToken(t, m)
 			if c, err = psatoken.DecodeClaimsFromCBOR(tok); err != nil {
